@@ -65,6 +65,7 @@ type Seq struct {
 	bulkHooks   bool // several chunks: file mutations of earlier chunks precede later hooks
 	Hooks       Hooks
 	KnownSample map[string]string
+	Loose       map[string]string // outcomes the model leaves open, keyed by call (compared across configurations by C12)
 }
 
 // Hooks lets other scenarios (crash, iofault, diff, ...) observe the run.
@@ -545,7 +546,10 @@ func (s *Seq) opFlush(op *Op) {
 func (s *Seq) opCreate(op *Op) {
 	cfg := s.Cfg
 	if op.NCfg != nil {
-		cfg = op.NCfg
+		// only the cache / async settings change; everything else is the run's configuration
+		nc := *s.Cfg
+		nc.Cache, nc.Async, nc.Threshold, nc.TimeoutMs = op.NCfg.Cache, op.NCfg.Async, op.NCfg.Threshold, op.NCfg.TimeoutMs
+		cfg = &nc
 	}
 	err := s.db.Create(rec0(), cfg.Schema())
 	if err != nil {
